@@ -232,6 +232,24 @@ func TestC15Deterministic(t *testing.T) {
 	pbt.Run(t, "deterministic-generation", pbt.Scale(96, 6000), genDetCase, checkC15)
 }
 
+// TestC15Repository: every repository / kitchen-sink schema set with every Go layout and the C++ back end, each with
+// all options on, so that the quick tier does not depend on the random cases happening to pick them.
+func TestC15Repository(t *testing.T) {
+	pbt.Enumerate(t, "deterministic-generation-repository", func(yield func(detCase) bool) {
+		for set := range repoSets {
+			for _, lang := range []string{"go-split", "go", "cpp"} {
+				c := detCase{Repo: set + 1, Lang: lang, Procs: []int{2, 16}, Dir: set%2 == 0}
+				if strings.HasPrefix(lang, "go") {
+					c.Args = []string{"--tl2WhiteList=*", "--generateByteVersions=*", "--generateRandomCode"}
+				}
+				if !yield(c) {
+					return
+				}
+			}
+		}
+	}, checkC15)
+}
+
 // ---- C16: output directory management ---------------------------------------------------------------------------
 
 type outdirStep struct {
